@@ -1,11 +1,12 @@
 (** Executable model of socket/http.c: the reply parser over its ring buffer ([h_buf], a checked
-    array whose length is recv_buf_length), buffer growth by g_realloc (new bytes = G), the
-    assertions of assert_ring_buffer_valid (a violated one is a Fault), body skipping, the hand-over
-    of bytes that followed the reply, and the pass-through once connected.
-    Known-defective paths are tagged with [PMark]:
-      1 = the Content-Length digit loop read the ring slot just past recv_buf_fill,
-      2 = the ring buffer was grown while its content was wrapped,
-      3 = bytes followed the reply in the same read (handed over without setting message->length).
+    array whose length is recv_buf_length), buffer growth (a fresh g_malloc'ed block, content linearised,
+    the rest = G), the assertions of assert_ring_buffer_valid (a violated one is a Fault), body skipping,
+    the hand-over of bytes that followed the reply, and the pass-through once connected.
+    Instrumentation (not part of the code's behaviour):
+      - the Content-Length digit loop reports whether it evaluated GET_BYTE at or past recv_buf_fill
+        ([PMark 1]); HttpProofs.v shows that this never happens;
+      - [PMark 3]: more bytes followed the reply in the same read than the caller's buffer holds; the
+        excess stays in the ring for good (the connected fast path never looks at the ring again).
     No proofs in this file. *)
 From Coq Require Import ZArith List Bool.
 From Nice Require Import Stream.StreamBase Stream.TcpQueueModel Stream.PsslModel.
@@ -134,7 +135,7 @@ Fixpoint digits (fuel : nat) (p cl : Z) (stale : bool) : dres * bool :=
         if (MAXSIZE / 10 <? cl) || (MAXSIZE - val <? cl * 10) then (DBreak p 0, stale')
         else
           let cl' := cl * 10 + val in
-          if fill <? p + 1 then (DNeed cl', stale') else digits f (p + 1) cl' stale'
+          if fill <=? p + 1 then (DNeed cl', stale') else digits f (p + 1) cl' stale'
     end
   end.
 
@@ -175,34 +176,35 @@ Definition http_error (s : hst) : prog hst :=
            h_pos := h_pos s; h_fill := h_fill s; h_cl := h_cl s |} (-1).
 Definition mark_if {S} (b : bool) (n : Z) (p : prog S) : prog S := if b then PMark n p else p.
 
-(** memcpy_ring_buffer_to_input_messages for one message with one buffer of UPCAP bytes + flush of the
-    send queue + return.  The bytes go into the caller's buffer but message->length is never set. *)
+(** memcpy_ring_buffer_to_input_messages for one message with one buffer of UPCAP bytes (message->length =
+    bytes copied) + flush of the send queue + return *)
 Definition http_handover (s : hst) : prog hst :=
   let L := lenZ (h_buf s) in
-  let fin (pos' fill' : Z) (ret : Z) (z : Z) :=
+  let fin (pos' fill' : Z) (data : list Z) :=
     let s' := {| h_state := HT_CONNECTED; h_base := h_base s; h_queue := []; h_buf := h_buf s;
                  h_pos := pos'; h_fill := fill'; h_cl := h_cl s |} in
-    flush_queue (h_queue s) (if ret =? 1 then PUp [] z (PDone s' 1) else PDone s' 0) in
+    mark_if (0 <? fill') 3 (flush_queue (h_queue s) (PUp data (-1) (PDone s' 1))) in
   if 0 <? h_fill s then
-    PMark 3
     (if L <? h_pos s + h_fill s then
        let len1 := Z.min (L - h_pos s) UPCAP in
        match mreadn (h_buf s) (h_pos s) len1 with
        | None => PFault
-       | Some _ =>
+       | Some d1 =>
          let len2 := Z.min (h_fill s - len1) (UPCAP - len1) in
          match mreadn (h_buf s) 0 len2 with
          | None => PFault
-         | Some _ => let c := len1 + len2 in fin ((h_pos s + c) mod L) (h_fill s - c) 1 c
+         | Some d2 => let c := len1 + len2 in fin ((h_pos s + c) mod L) (h_fill s - c) (d1 ++ d2)
          end
        end
      else
        let len := Z.min (h_fill s) UPCAP in
        match mreadn (h_buf s) (h_pos s) len with
        | None => PFault
-       | Some _ => fin ((h_pos s + len) mod L) (h_fill s - len) 1 len
+       | Some d1 => fin ((h_pos s + len) mod L) (h_fill s - len) d1
        end)
-  else fin (h_pos s) (h_fill s) 0 0.
+  else flush_queue (h_queue s)
+         (PDone {| h_state := HT_CONNECTED; h_base := h_base s; h_queue := []; h_buf := h_buf s;
+                   h_pos := h_pos s; h_fill := h_fill s; h_cl := h_cl s |} 0).
 
 (** the `retry:` loop *)
 Fixpoint http_parse (fuel : nat) (s : hst) : prog hst :=
@@ -241,22 +243,35 @@ Fixpoint http_parse (fuel : nat) (s : hst) : prog hst :=
 (* assert_ring_buffer_valid *)
 Definition ring_valid (L pos fill : Z) : bool := (fill <=? L) && ((pos =? 0) || (pos <? L)).
 
+(* "Has the buffer filled up?": a new block of max(2*length, 1024) bytes (uninitialised = G), the content copied
+   to its front (tail part first, then the wrapped part), recv_buf_pos = 0.  Result: buffer, pos. *)
+Definition http_grow (G : Z) (s : hst) : option (list Z * Z) :=
+  let L0 := lenZ (h_buf s) in
+  if h_fill s =? L0 then
+    let L := Z.max (L0 * 2) 1024 in
+    if 0 <? h_fill s then
+      let tail := Z.min (h_fill s) (L0 - h_pos s) in
+      match mreadn (h_buf s) (h_pos s) tail, mreadn (h_buf s) 0 (h_fill s - tail) with
+      | Some d1, Some d2 => Some (d1 ++ d2 ++ repZ G (Z.to_nat (L - h_fill s)), 0)
+      | _, _ => None
+      end
+    else Some (repZ G (Z.to_nat L), 0)
+  else Some (h_buf s, h_pos s).
+
 Definition http_body (G : Z) (s : hst) : prog hst :=
   if h_state s =? HT_CONNECTED then (if h_base s then passthrough s else PDone s (-1))
   else
-    (* grow when full *)
-    let L0 := lenZ (h_buf s) in
-    let grown := h_fill s =? L0 in
-    let L := if grown then Z.max (L0 * 2) 1024 else L0 in
-    let buf := if grown then h_buf s ++ repZ G (Z.to_nat (L - L0)) else h_buf s in
-    mark_if (grown && (L0 <? h_pos s + h_fill s)) 2
-    (if negb (ring_valid L (h_pos s) (h_fill s)) then PFault else
-     let wrapped := L <? h_pos s + h_fill s in
-     let off0 := if wrapped then (h_pos s + h_fill s) mod L else h_pos s + h_fill s in
-     let size0 := if wrapped then L - h_fill s else L - (h_pos s + h_fill s) in
-     let size1 := if wrapped then 0 else h_pos s in
+    match http_grow G s with
+    | None => PFault
+    | Some (buf, pos) =>
+     let L := lenZ buf in
+     if negb (ring_valid L pos (h_fill s)) then PFault else
+     let wrapped := L <? pos + h_fill s in
+     let off0 := if wrapped then (pos + h_fill s) mod L else pos + h_fill s in
+     let size0 := if wrapped then L - h_fill s else L - (pos + h_fill s) in
+     let size1 := if wrapped then 0 else pos in
      let s0 := {| h_state := h_state s; h_base := h_base s; h_queue := h_queue s; h_buf := buf;
-                  h_pos := h_pos s; h_fill := h_fill s; h_cl := h_cl s |} in
+                  h_pos := pos; h_fill := h_fill s; h_cl := h_cl s |} in
      if h_base s then
        PRead false (size0 + size1) (fun d =>
          if lenZ d =? 0 then PDone s0 0 else
@@ -268,13 +283,14 @@ Definition http_body (G : Z) (s : hst) : prog hst :=
            | None => PFault
            | Some b2 =>
              let fill' := h_fill s + lenZ d in
-             if negb (ring_valid L (h_pos s) fill') then PFault else
+             if negb (ring_valid L pos fill') then PFault else
              http_parse (Datatypes.S (Datatypes.S (Datatypes.S (Datatypes.S (Datatypes.S (Z.to_nat fill'))))))
                {| h_state := h_state s; h_base := true; h_queue := h_queue s; h_buf := b2;
-                  h_pos := h_pos s; h_fill := fill'; h_cl := h_cl s |}
+                  h_pos := pos; h_fill := fill'; h_cl := h_cl s |}
            end
          end)
-     else PDone s0 (-1)).
+     else PDone s0 (-1)
+    end.
 
 Definition http_send (s : hst) (reliable : bool) (bufs : list (list Z)) : hst * list ev :=
   if h_state s =? HT_CONNECTED then
